@@ -3,7 +3,7 @@
 use crate::engine::*;
 use crate::gen;
 use engeom::common::Intersection;
-use engeom::geom2::polyline2::{farthest_point_direction_distance, max_intersection, polyline_intersections, ray_intersect_with_edge, spanning_ray};
+use engeom::geom2::polyline2::{farthest_point_direction_distance, max_intersection, ray_intersect_with_edge, spanning_ray};
 use engeom::{Curve2, Point2, SurfacePoint2, Vector2};
 use parry2d_f64::query::Ray;
 use parry2d_f64::shape::Polyline;
